@@ -63,6 +63,8 @@ type State struct {
 	Vals     []Val
 	Outst    map[string]*big.Int // "v|denom"
 	Comm     map[string]*big.Int
+	QLookup  map[string]*Utxr   // by-request-id query: "tenant|request-id token" -> answer (nil: not found)
+	QList    map[uint64][]string // list query per tenant: "request-id token*amount" in the order returned; absent: refused
 }
 
 type RoundInfo struct {
@@ -107,13 +109,46 @@ func parseRcpt(s string) []Rcpt {
 // Parse turns dump lines into a State.
 func Parse(lines []string) *State {
 	s := &State{Tenants: map[uint64]*Tenant{}, Index: map[string]uint64{}, Last: map[uint64]uint64{}, Bal: map[string]*big.Int{},
-		Prevotes: map[string]string{}, Votes: map[string]string{}, Miss: map[string]uint64{}, Feeders: map[string]string{}, Outst: map[string]*big.Int{}, Comm: map[string]*big.Int{}}
+		Prevotes: map[string]string{}, Votes: map[string]string{}, Miss: map[string]uint64{}, Feeders: map[string]string{}, Outst: map[string]*big.Int{}, Comm: map[string]*big.Int{}, QLookup: map[string]*Utxr{}, QList: map[uint64][]string{}}
 	for _, l := range lines {
 		f := strings.Fields(l)
 		if len(f) == 0 {
 			continue
 		}
 		switch f[0] {
+		case "Qu":
+			if len(f) >= 4 {
+				k := f[1] + "|" + f[2]
+				if f[3] == "notfound" {
+					s.QLookup[k] = nil
+				} else {
+					u := &Utxr{Tenant: pu(f[1]), Amt: big.NewInt(0)}
+					for _, t := range f[3:] {
+						a, b := kv(t)
+						switch a {
+						case "req":
+							u.Req = b
+						case "amt":
+							u.Amt = bigOf(b)
+						case "created":
+							u.Created = pu(b)
+						case "nft":
+							u.Nft = b
+						case "rcpt":
+							u.Rcpt = parseRcpt(b)
+						}
+					}
+					s.QLookup[k] = u
+				}
+			}
+		case "QU":
+			if len(f) >= 3 && f[2] != "err" {
+				if f[2] == "-" {
+					s.QList[pu(f[1])] = []string{}
+				} else {
+					s.QList[pu(f[1])] = strings.Split(f[2], ",")
+				}
+			}
 		case "H":
 			s.H = pu(f[1])
 			for _, tok := range f[2:] {
